@@ -497,6 +497,7 @@ func c05API(c *Ctx, msgs []string) {
 				if "ok "+strconv.Itoa(int(got.code)) != wantCode || got.code == 1005 || got.code == 1006 {
 					c.SpecFail("api-ws", in, fmt.Sprintf("%d %q", got.code, got.reason), "close code "+wantCode, "C05/ws/close-code-not-mapped", "the close frame does not carry the close code the status code maps to")
 				}
+				c.Correspond("api-ws-reason", join("wsreason", hexS(sc.msg)), hexS(got.reason), len(sc.msg) > 100)
 				if !utf8.ValidString(got.reason) {
 					c.SpecFail("api-ws", in, fmt.Sprintf("%d %q", got.code, got.reason), "a UTF-8 reason", "C05/ws/close-reason-not-utf8", "the close frame's reason is not valid UTF-8 (RFC 6455 5.5.1): a conforming client fails the connection instead of reading the status")
 				}
